@@ -29,9 +29,9 @@ import (
 // requests and performs no processing. Bounded-exhaustive over service lists x routes x token kinds.
 
 var (
-	oauthOnce          sync.Once
-	nrfKey, otherKey   *rsa.PrivateKey
-	nrfCertPath        string
+	oauthOnce        sync.Once
+	nrfKey, otherKey *rsa.PrivateKey
+	nrfCertPath      string
 )
 
 func oauthSetup() {
